@@ -31,6 +31,9 @@ def run(ctx):
     r4(ctx)
     r5(ctx)
     r6(ctx)
+    ctx.rule("C16.R7", "K3", "(= C10.R2) a reload merges the sources afresh: the raw_env exports of the outgoing configuration are undone before the configuration (incl. GUNICORN_CMD_ARGS) is re-read, and a new Config is built")
+    from .c10 import env_reset_before_reload
+    env_reset_before_reload(ctx, "C16.R7")
 
 
 def r6(ctx):
